@@ -110,7 +110,7 @@ fn run(ctx: &mut Ctx) {
                     ctx.violation("panic", &format!("fault-free {}", sig_args(policy, pname)), &[base.clone()], "no panic".into(), ff.brief());
                     continue;
                 }
-                if ["utf8", "text", "csv"].contains(pname) && ff.stdout.len() > 60 && !ff.stdout.is_ascii() {
+                if ["utf8", "text", "csv"].contains(&pname) && ff.stdout.len() > 60 && !ff.stdout.is_ascii() {
                     ctx.guard("raw-utf8-row-longer-than-60-bytes");
                 }
                 let reached_eof = ff.read_calls > ff.bytes_pulled;
